@@ -437,9 +437,10 @@ def roots_conversion(case):
 
 # ------------------------------------------------------------------------------------------------ crossable auxiliary graph
 CR = GR + "::active_edges_connected_crossable"
+_MISSING_FLAG = object()
 
 
-@harness("C10", structural=True)
+@harness("C10", structural=True, cases=[dict(route=r) for r in ("auxiliary", "any")])
 def crossable_aux_graph(case):
     """auxiliary graph of the crossable constraint: node numbering, adjacency and the aligned activity list"""
     if CTX.mode != "sym":
@@ -500,8 +501,10 @@ def crossable_aux_graph(case):
     use_contract(GR + "::Graph.add_edge", lambda it, a, k: added.append((a[1], a[2])))
 
     def avc(it, args, kwargs):
+        handed["calls"] = handed.get("calls", 0) + 1
         handed["gv"] = args[1]
         handed["graph"] = kwargs.get("graph")
+        handed["flag"] = kwargs.get("use_graph_primitive", _MISSING_FLAG)
         return None
 
     use_contract(GR + "::active_vertices_connected", avc)
@@ -581,11 +584,19 @@ def crossable_aux_graph(case):
     loop_spec(CR, 9, inv=lambda ns: [ns.y >= 0, ns.y < H - 1], modifies=[], types={"eid": "int", "v0": "int", "v1": "int"}, at_head=head, at_end=end_vadj)
     loop_spec(CR, 10, inv=lambda ns: [ns.y >= 0], modifies=[], types={"x": "int", "eid": "int", "v0": "int", "v1": "int"})
     loop_spec(CR, 11, inv=lambda ns: [ns.y >= 0, ns.y < H], modifies=[], types={"eid": "int", "v0": "int", "v1": "int"}, at_head=head, at_end=end_hadj)
-    o = call(REAL(GR, "active_edges_connected_crossable"), solver, frame, single_cycle=False, use_graph_primitive=False)
+    # case "any": whichever encoding of connectivity is asked for (None / True / False) and for paths and cycles alike, the
+    # SAME auxiliary graph is built and handed to active_vertices_connected together with the caller's flag
+    if case.route == "any":
+        flag = Opaque("use_graph_primitive as given by the caller")
+        o = call(REAL(GR, "active_edges_connected_crossable"), solver, frame, single_cycle=sbool("single_cycle"), use_graph_primitive=flag)
+    else:
+        flag = False
+        o = call(REAL(GR, "active_edges_connected_crossable"), solver, frame, single_cycle=False, use_graph_primitive=False)
     check("no-exception", not o.raised)
     if o.raised:
         return
     check("connectivity-is-posted-on-the-auxiliary-graph", "gv" in handed and handed.get("graph") is not None)
+    check("connectivity-is-asked-for-once,-with-the-caller's-flag", handed.get("calls") == 1 and handed.get("flag") is flag)
     if "gv" in handed:
         g = handed["graph"]
         nodes = H * W * 3 + (H - 1) * W + H * (W - 1)
